@@ -387,3 +387,24 @@ _BaseP = P
 class P(_pl.PipelineMixin, _BaseP):
     pipeline_share = 0.12
     pipeline_oracles = ("c01",)
+
+
+# ---- command-line cases: the real `picked_group_fdr.main(argv)` in-process against the composed Lean model
+# PgFdr.Cli.cliOutcome (harness/cli_model.py).  Oracle = the C01 statement only (pipeline.oracle_c01), on the rows READ
+# BACK FROM THE WRITTEN TABLE of every method against the ranking observed in that method's inference call: q-values are
+# suffix minima of (decoys+1)/(targets+1), rows carry score and q-value of their rank in order.
+# --psm_fdr_cutoff, --protein_group_fdr_threshold and --keep_all_proteins vary independently
+import cli_model as _cm  # noqa: E402
+
+_PipeP = P
+
+
+class P(_cm.CliMixin, _PipeP):
+    cli_model_share = 0.016   # ~40 of the 2 500 quick cases
+    cli_oracles = ("c01",)
+    rule = _PipeP.rule + (
+        "; 1.6 % of the cases run the whole command line in process (harness/cli_model.py: 1-3 shipped MaxQuant / Percolator "
+        "methods, generated FASTA and evidence files under random names in random order, --psm_fdr_cutoff from "
+        "{0.01, 0.05, 0.0011, 0.2}, --protein_group_fdr_threshold from pipeline.THRESHOLDS and --keep_all_proteins drawn "
+        "independently) and state C01 on the written table"
+    )
